@@ -223,6 +223,7 @@ class Exec:
         self.max_paths = 1500
         self.track_uninit = False    # optional: flag scalar loads from never-written stack bytes (allocas; re-poisoned by llvm.lifetime.start)
         self.garbage_heap = (getattr(dom, 'name', '') != 'concrete') and not os.environ.get('VERIF_NO_GARBAGE')    # optional: storage obtained from operator new / malloc during the run holds arbitrary bytes - a scalar load of never-written bytes yields a fresh symbol (garb_<addr>)
+        self.garbage_stack = not os.environ.get('VERIF_NO_GARBAGE_STACK')      # locals hold arbitrary bytes until written, like heap storage
         self.check_gep = True        # inbounds address computations must stay inside the object they start in (only where the base lies in a known heap allocation)
         self.fork_guide = None       # optional: fork_guide(st, cond, true_block, false_block) -> None | True | False, asked before fork_filter
         self.round_toint = False     # symbolic round/ceil/floor/fp-to-int as fresh mathematical integers (no enumeration of integer parts)
@@ -827,6 +828,7 @@ class Exec:
                 if not isinstance(n, int): raise Unsupported('symbolic alloca size')
                 a = self.malloc(st, m.sizeof(ins['ty']) * n); fr.loc[ins['dst']] = a; fr.allocas.append(a)
                 if self.track_uninit: st.extra.setdefault('uninit', {})[a] = bytearray(b'\1' * (m.sizeof(ins['ty']) * n))
+                if self.garbage_heap and self.garbage_stack: self.garbage_alloc(st, a, m.sizeof(ins['ty']) * n)      # a local variable holds arbitrary bytes until it is written
             elif op in ('bitcast', 'addrspacecast'):
                 v = self.val(st, fr, ins['ty'], ins['a']); t1 = m.resolve(ins['ty']); t2 = m.resolve(ins['ty2'])
                 if isinstance(t1, FloatTy) and isinstance(t2, IntTy):
